@@ -1,5 +1,7 @@
 import FrappyProofs.Lemmas.StateMachineInv
 import FrappyProofs.Lemmas.StateMachineBusy
+import FrappyProofs.Lemmas.StateMachineFollow
+import FrappyProofs.Lemmas.StatusCache
 import FrappyModel.Spec.C14
 import FrappyModel.Generated.C14
 /-
@@ -85,10 +87,16 @@ theorem cleanup_exactly_once (cfg : Cfg) (P : Prog) (idle : Status) (ops : List 
   (run_good cfg P idle ops).mono fun _ _ h => (okAll_parts h).2.1
 
 /-- A cleanup sequence in progress is cut short only by an error, never by stop or start, and requests are taken
-only by the inactive machine. -/
+only by the inactive machine; and every sequence of states is executed as its functions direct: a state handed over by
+a state function or by a cleanup function — whatever interrupted the run: stop, restart, an exception, a non-callable
+return value, too many chained states — is entered as the next thing the cycle thread does, a state is entered only
+so (or as the start just taken), and the machine becomes inactive only right after an interruption without cleanup or
+after a function returned something that ends the run. -/
 theorem cleanup_not_interrupted (cfg : Cfg) (P : Prog) (idle : Status) (ops : List Op) :
     CleanupNotInterrupted idle (history cfg P idle ops) :=
-  (run_good cfg P idle ops).mono fun _ _ h => (okAll_parts h).2.2.1
+  ⟨(run_good cfg P idle ops).mono fun _ _ h => (okAll_parts h).2.2.1,
+   (run_follow cfg P idle ops).mono fun _ _ h => by simp only [okT, Bool.and_eq_true] at h; exact h.1,
+   (run_follow cfg P idle ops).mono fun _ _ h => by simp only [okT, Bool.and_eq_true] at h; exact h.2⟩
 
 /-- After stop the machine is inactive at the end of the first cycle that saw no further request and leaves no
 cleanup sequence in progress; and a stop request to a module (`stop_machine`) that finds a state function active —
@@ -110,21 +118,44 @@ theorem last_start_wins (cfg : Cfg) (P : Prog) (idle : Status) (ops : List Op) :
    (run_good cfg P idle ops).mono fun _ _ h => (okAll_parts h).2.2.2.2.2.2.2.2.2⟩
 
 /-- **A module built on the machine reports a busy status from the start request until the machine has finished, and
-its final or stopped status afterwards** — for every configuration of the mixin, every program, every oracle of
-concurrent requests (atomic with respect to the transitions of the machine: in the code `start_machine`,
-`stop_machine`, `final_status` and `StateMachine._new_state` run under one lock), every operation sequence, provided
-the status codes attached to state functions and given as `status=` overrides are busy codes and `BUSY < ERROR`.
-Every status report in the history is busy while a state function is active or a start is waiting or being entered,
-and is the final / stopped status declared most recently otherwise. -/
+its final or stopped status afterwards** — for every configuration of the mixin with `BUSY < ERROR`, every program, every
+oracle of concurrent requests (atomic with respect to the transitions of the machine: in the code `start_machine`,
+`stop_machine`, `final_status` and `StateMachine._new_state` run under one lock), every operation sequence — no
+assumption about the status codes the author attaches or passes.  Every status report in the history is busy while a
+state function is active or a start is waiting or being entered, unless a status that is not busy was declared for
+this very engagement (`Obs.lax`: the override of the start request in force, the status attached to its start state,
+to the state active when it was issued or to a state entered since — never anything from an earlier engagement); and it
+is the final / stopped status declared most recently when the module is not engaged. -/
 theorem busy_until_finished (cfg : Cfg) (P : Prog) (idle : Status) (ops : List Op) (hs : cfg.hasStates = true)
-    (hr : BusyRules cfg.rules) (hP : BusyProg cfg.rules P) (ho : BusyOps cfg.rules ops) :
+    (hb : cfg.rules.busy < cfg.rules.error) :
     BusyUntilFinished idle cfg.rules (history cfg P idle ops) :=
-  ⟨(run_busy cfg hs hr P hP idle ops ho).mono fun _ _ h => by
+  ⟨(run_busy cfg hs hb P idle ops).mono fun _ _ h => by
       simp only [okB, Bool.and_eq_true] at h; exact h.1,
-   (run_busy cfg hs hr P hP idle ops ho).mono fun _ _ h => by
+   (run_busy cfg hs hb P idle ops).mono fun _ _ h => by
       simp only [okB, Bool.and_eq_true] at h; exact h.2⟩
 
+/-- … and without the exception when the status codes attached to state functions are busy codes (`BusyRules`) and so
+are the `status=` overrides of all start requests in the history: then every status report is busy while the module is
+engaged. -/
+theorem busy_until_finished_strict (cfg : Cfg) (P : Prog) (idle : Status) (ops : List Op) (hs : cfg.hasStates = true)
+    (hr : BusyRules cfg.rules) (hp : postsBusy cfg.rules (history cfg P idle ops) = true) :
+    BusyUntilFinishedStrict idle cfg.rules (history cfg P idle ops) :=
+  ⟨strict_of_busy hr idle _ hp (busy_until_finished cfg P idle ops hs hr.busy).1,
+   (busy_until_finished cfg P idle ops hs hr.busy).2⟩
+
+/-- **The status a module derives for a state function does not depend on the history of the module instance**: whatever
+sequence of `get_status` lookups (any state functions, any default codes — those of `start_machine`, `stop_machine`, the
+transition hook, in any engagement) went through the `statusMap` cache before, a lookup returns what the lookup without
+cache returns: the attached status, else the default made up from *its own* default code.  (This is what lets the
+machine model use the pure `getStatus` / `statusOf`.) -/
+theorem status_independent_of_history (r : Rules) (before : List (Sid × Option Nat)) (s : Sid) (d : Option Nat) :
+    (getStatusCached r (lookups r [] before).2 s d).1 = getStatusOpt r s d ∧
+    (lookups r [] before).1 = before.map (fun q => getStatusOpt r q.1 q.2) :=
+  ⟨(getStatusCached_coherent (lookups_coherent before (coherent_nil r)).2 s d).1,
+   (lookups_coherent before (coherent_nil r)).1⟩
+
 /-! ### non-vacuity / concrete scenarios -/
+
 
 def rules0 : Rules :=
   { statusOf := fun s => if s = 1 then some (340, "state 1") else none,
@@ -142,6 +173,19 @@ theorem busyRules0 : BusyRules rules0 := by
   · cases h; decide
   · cases h
 
+/-- the model's busy predicate is the one the specification names, for every status (so the monitor of the recorded
+`Drivable.isBusy` table accepts exactly the tables that agree with the predicate the busy clause is proved for) -/
+theorem busy_predicate_spec (r : Rules) (table : List (Nat × Bool)) :
+    busyPredicateBad r table = [] ↔ ∀ p, p ∈ table → p.2 = isBusy r (p.1, "") := by
+  unfold busyPredicateBad isBusy
+  rw [List.map_eq_nil_iff, List.filter_eq_nil_iff]
+  constructor
+  · intro h p hp; simpa using h p hp
+  · intro h p hp; simpa using h p hp
+
+example : busyPredicateBad rules0 [(299, false), (300, true), (399, true), (400, false)] = [] ∧
+    busyPredicateBad rules0 [(300, false), (400, true)] = [300, 400] := by decide
+
 /-- a program that retries once and then chains states for ever, with a cleanup that returns a state: the second
 cycle hits the loop limit twice -/
 def chainProg : Prog :=
@@ -158,6 +202,19 @@ example : cnt isCall (run (cfg0 false) chainProg (SM.initial (100, ""))
 /-- the monitors accept that history, and it contains exactly one cleanup call -/
 example : judge (100, "") 2 false rules0 (run (cfg0 false) chainProg (SM.initial (100, ""))
     [.req (.start 0 (some 0) [(1, 5)] none), .cycle, .cycle]).trace = [] := by decide +kernel
+
+/-- the monitor is not vacuous on this path: the same history cut after the cleanup function (called for "too many
+states chained") has handed over state 1, and continued as if the machine had ended the run there, is rejected at that
+transition — the state returned was not entered, and nothing called for the machine to become inactive -/
+example : (judge (100, "") 2 false rules0
+      ((run (cfg0 false) chainProg (SM.initial (100, "")) [.req (.start 0 (some 0) [(1, 5)] none), .cycle, .cycle]).trace.take 18
+        ++ [.enter none, .cycleEnd false false])).map (fun v => (v.1, v.2.name)) =
+    [(18, "cleanup_not_interrupted:returned-state-not-entered"), (18, "cleanup_not_interrupted:transition-not-called-for")] := by
+  decide +kernel
+
+/-- … and in the uncut history the cleanup sequence does go on: after the cleanup function state 1 is entered and called -/
+example : ((run (cfg0 false) chainProg (SM.initial (100, "")) [.req (.start 0 (some 0) [(1, 5)] none), .cycle, .cycle]).trace.drop 15).take 5 =
+    [.interrupt .error, .cleanup 0, .ret (.next 1) none, .enter (some 1), .call 1 true] := by decide +kernel
 
 /-! ### a stop request while a cleanup sequence with a start waiting behind it is in progress -/
 
@@ -211,30 +268,9 @@ def busyProg : Prog :=
 def busyOps : List Op :=
   [.req (.start 0 (some 0) [] none), .cycle, .cycle, .cycle, .req (.start 3 none [] (some (380, "y"))), .cycle, .cycle, .cycle]
 
-theorem busyProg0 : BusyProg rules0 busyProg := by
-  refine ⟨?_, ?_, ?_⟩
-  · intro tr s q hq
-    simp only [busyProg] at hq
-    split at hq
-    · simp at hq; subst hq; show isBusy rules0 (370, "x") = true; decide
-    · simp at hq
-  · intro tr c q hq; simp [busyProg] at hq
-  · intro n q hq
-    simp only [busyProg] at hq
-    split at hq
-    · simp at hq; subst hq; trivial
-    · simp at hq
-
-theorem busyOps0 : BusyOps rules0 busyOps := by
-  intro q hq
-  simp only [busyOps, List.mem_cons, Op.req.injEq, List.not_mem_nil, or_false, reduceCtorEq, false_or] at hq
-  rcases hq with rfl | rfl
-  · trivial
-  · show isBusy rules0 (380, "y") = true; decide
-
-/-- `busy_until_finished` applies to this history … -/
-example : BusyUntilFinished (100, "") rules0 (history (cfg0 true) busyProg (100, "") busyOps) :=
-  busy_until_finished (cfg0 true) busyProg (100, "") busyOps rfl busyRules0 busyProg0 busyOps0
+/-- `busy_until_finished_strict` applies to this history (all declared status codes are busy) … -/
+example : BusyUntilFinishedStrict (100, "") rules0 (history (cfg0 true) busyProg (100, "") busyOps) :=
+  busy_until_finished_strict (cfg0 true) busyProg (100, "") busyOps rfl busyRules0 (by decide +kernel)
 
 /-- … in which the module reports: busy from the start request on, through the restart requested from inside a state
 function (override), the stop of another thread arriving after `final_status` ("stopping"), then the stopped status
@@ -243,6 +279,54 @@ example : (history (cfg0 true) busyProg (100, "") busyOps).filterMap (fun e => m
     [(300, "st 0"), (300, "st 0"), (370, "x"), (370, "x"), (340, "state 1"), (340, "state 1"), (340, "stopping"),
      (100, "stopped"), (100, "stopped"), (100, "stopped"), (380, "y"), (380, "y"), (380, "y"), (380, "y"), (380, "y")] := by
   decide +kernel
+
+/-! ### a status that is not busy, declared for one engagement, does not count for the next -/
+
+/-- like `rules0`, and state 4 declares a status that is not busy (`WARN`: the module waits for a go) -/
+def rules1 : Rules :=
+  { statusOf := fun s => if s = 1 then some (340, "state 1") else if s = 4 then some (200, "waiting") else none,
+    label := fun s => if s = 0 then "st 0" else if s = 3 then "st 3" else "st x",
+    busy := Frappy.Generated.C14.busyCode, error := Frappy.Generated.C14.errorCode }
+
+def cfg1 : Cfg := { maxloops := 2, hasStates := true, rules := rules1 }
+
+/-- states 4 and 3 hand over to state 0 (nothing attached); state 0 retries, and finishes in the sixth call overall -/
+def waitProg : Prog :=
+  { state := fun tr s =>
+      { posts := [],
+        fin := if s = 0 ∧ 6 ≤ cnt isCall { SM.initial (100, "") with trace := tr } then some (100, "done") else none,
+        ret := if s = 0 then (if 6 ≤ cnt isCall { SM.initial (100, "") with trace := tr } then .finish else .retry) else .next 0 },
+    clean := fun _ _ => { posts := [], fin := none, ret := .bad },
+    env := fun _ => [] }
+
+/-- first engagement: start at state 4, on to state 0, stopped there; second engagement: start at state 3, on to state 0 -/
+def waitOps : List Op :=
+  [.req (.start 4 none [] none), .cycle, .cycle, .req (.stop (100, "stopped")), .cycle,
+   .req (.start 3 none [] none), .cycle, .cycle, .cycle]
+
+/-- `busy_until_finished` applies (no assumption about the declared status codes) … -/
+example : BusyUntilFinished (100, "") rules1 (history cfg1 waitProg (100, "") waitOps) :=
+  busy_until_finished cfg1 waitProg (100, "") waitOps rfl (by decide)
+
+/-- … the module reports what its author declared in the first engagement — also in state 0 and while stopping there —
+and a busy status all through the second one, in the same state 0 -/
+example : (history cfg1 waitProg (100, "") waitOps).filterMap (fun e => match e with | .status st => some st | _ => none) =
+    [(200, "waiting"), (200, "waiting"), (200, "waiting"), (200, "waiting"), (200, "waiting"), (200, "stopping"),
+     (100, "stopped"), (100, "stopped"), (300, "st 3"), (300, "st 3"), (300, "st 3"), (300, "st 3"),
+     (100, "done"), (100, "done"), (100, "done")] := by decide +kernel
+
+/-- the monitor accepts this history, and rejects the one in which the second engagement, on entering state 0, reports
+the status code that state 0 happened to have in the first engagement -/
+example : judge (100, "") 2 true rules1 (history cfg1 waitProg (100, "") waitOps) = [] ∧
+    (judge (100, "") 2 true rules1 ((history cfg1 waitProg (100, "") waitOps).set 45 (.status (200, "st 0")))).map
+      (fun v => (v.1, v.2.name)) = [(45, "busy_until_finished")] := by decide +kernel
+
+/-- the cache at work: state 0 (nothing attached) is first asked for with the code of a status that is not busy (as
+`stop_machine` does while the module shows `WARN`), then with `BUSY`, then without default; state 4 twice — the second
+and third lookup of state 0 and the second of state 4 are answered from the cache, and still each gets its own default -/
+example : lookups rules1 [] [(0, some 200), (0, some 300), (0, none), (4, some 300), (4, none)] =
+    ([some (200, "st 0"), some (300, "st 0"), none, some (200, "waiting"), some (200, "waiting")],
+     [(4, some (200, "waiting")), (0, none)]) := by decide +kernel
 
 /-! ### `start_machine` preempted by a cycle: the busy clause fails -/
 
